@@ -319,6 +319,39 @@ def zip_family(seed, i):
     return {"sizes": sizes, "roots": roots, "funcs": funcs}
 
 
+def reuse_family(seed, i):
+    """Directed family: an axis that an upstream output got from one input (w) is reduced away by a function that maps ANOTHER
+    one-dimensional input (u) along an axis of the same name: that axis of the result is labelled by u alone."""
+    rng = random.Random(f"c19reuse:{seed}:{i}")
+    sizes = {a: rng.randint(2, 4) for a in mapgen.AX}
+    a, b = rng.sample(mapgen.AX, 2)
+    kd = lambda: rng.choice(["list", "ndarray", "ndarray-int"])  # noqa: E731
+    roots = {"w": {"axes": [a], "kind": kd()}, "u": {"axes": [a], "kind": kd()}}
+    two = rng.random() < 0.7
+    if two:
+        roots["x"] = {"axes": [b], "kind": kd()}
+
+    def fn(name, outs, modes, out_axes):
+        ins = ", ".join(f"{p}[{', '.join(':' if m_ is None else m_ for m_ in m)}]" for p, m in modes.items())
+        return {"name": name, "params": list(modes), "outs": outs, "mapspec": f"{ins} -> " + ", ".join(f"{o}[{', '.join(out_axes)}]" for o in outs),
+                "modes": modes, "out_axes": list(out_axes), "internal": [], "internal_shape": [], "ret_list": False, "ishape_via": None}
+    if two:
+        ax0 = [b, a] if rng.random() < 0.5 else [a, b]
+        f0 = fn("f0", ["y0"], {"x": [b], "w": [a]}, ax0)
+        m_y = [(None if q == a else q) for q in ax0]
+        ax1 = [b, a] if rng.random() < 0.5 else [a, b]
+    else:
+        ax0 = [a]
+        f0 = fn("f0", ["y0"], {"w": [a]}, ax0)
+        m_y = [None]
+        ax1 = [a]
+    modes1 = {"y0": m_y, "u": [a]} if rng.random() < 0.5 else {"u": [a], "y0": m_y}
+    funcs = [f0, fn("f1", ["y1"], modes1, ax1)]
+    if rng.random() < 0.5:
+        funcs.append(fn("f2", ["y2"], {"y1": list(ax1)}, ax1))
+    return {"sizes": sizes, "roots": roots, "funcs": funcs}
+
+
 def run_case(desc):
     v = V()
     keys, sample = [], None
@@ -327,6 +360,9 @@ def run_case(desc):
             if i % 5 == 4:
                 case = zip_family(desc["seed"], i)
                 v.count("zip_family_cases")
+            elif i % 10 == 3:
+                case = reuse_family(desc["seed"], i)
+                v.count("cases_reusing_the_name_of_a_reduced_axis")
             else:
                 case = mapgen.case_from_seed(desc["seed"], i, allow_int_arrays=(i % 2 == 0))
             v.hit(mapgen.classes(case))
@@ -347,6 +383,8 @@ def finalize(agg, tier, seed):
         floors.append(f"only {agg.classes.get('generator', 0)} cases with a generator intermediate (< 20)")
     if c.get("zipped_coordinates_of_mixed_kinds", 0) < 50:
         floors.append(f"only {c.get('zipped_coordinates_of_mixed_kinds', 0)} zipped coordinates over inputs of different element kinds (< 50)")
+    if c.get("cases_reusing_the_name_of_a_reduced_axis", 0) < 20:
+        floors.append(f"only {c.get('cases_reusing_the_name_of_a_reduced_axis', 0)} cases that map an input along the name of a reduced axis (< 20)")
     if c.get("coordinate_expectations", 0) < 300:
         floors.append("fewer than 300 coordinate expectations checked")
     if c.get("selections_compared", 0) < 300:
